@@ -2,7 +2,9 @@
 from checks.common import *
 from checks import cryptstream as CS, settings as S
 
-SPECIAL = list(b":;*!\\ \n\t\x7f\x80\xff\x01")
+# bytes the generic filter rejects, plus printable bytes that pass the generic filter but are outside every method's own alphabet
+# (seeded/C05: a method that echoes part of such a setting before validating it)
+SPECIAL = list(b":;*!\\ \n\t\x7f\x80\xff\x01") + list(b"$-_=\",+~@#%&()[]{}<>?|^`'")
 
 def build_ops(R):
     quick = R.tier == "quick"
@@ -48,11 +50,18 @@ def build_ops(R):
     ops += g; meta += gm
     return ops, meta
 
-def oracle(ops, meta, il):
-    """fail-closed invariants, evaluated on the implementation's observations only"""
+def common_suffix(a, b):
+    n = 0
+    while n < len(a) and n < len(b) and a[-1 - n] == b[-1 - n]: n += 1
+    return n
+
+def oracle(ops, meta, il, ml=None):
+    """fail-closed invariants, evaluated on the implementation's observations; the model's verdict is used only to
+    name a request as 'cannot produce a hash' when the implementation itself raised EINVAL/ERANGE during the call"""
     bad = []
     last_success = {}   # object id -> hash held
-    for op, m, line in zip(ops, meta, il):
+    held = {}           # object id -> last terminated string seen in the output field
+    for k, (op, m, line) in enumerate(zip(ops, meta, il)):
         if not op.startswith("C "): continue
         t = op.split(" "); entry, obj = t[1], t[2] if t[1] != "st" else "static"
         ph, st = unhx(t[3]), unhx(t[4]); size = int(t[5]) if len(t) > 5 else 32768
@@ -75,8 +84,17 @@ def oracle(ops, meta, il):
                 elif not tok.startswith(b"*") or len(tok) >= 13: why = "output does not hold a '*' token"
                 elif st is not None and tok == st: why = "failure token equals the setting"
                 elif obj in last_success and tok == last_success[obj]: why = "stale hash left in output"
-        if not failed and out not in (None, "?", "unterminated"):
-            last_success[obj] = unhx(out)
+        cur = unhx(out) if out not in (None, "?", "unterminated") else None
+        if why is None and not failed and cur is not None:
+            prev = held.get(obj)
+            # part of what the object held before survives inside a different "result": the call did not write a whole hash
+            if prev is not None and cur != prev and not prev.startswith(b"*") and common_suffix(cur, prev) >= 11 and st is not None and not prev.startswith(st[:len(prev) - 11]):
+                why = "the returned string ends with %d characters of the string the object held before the call (stale hash material)" % common_suffix(cur, prev)
+            elif ml is not None and f.get("errno") in ("EINVAL", "ERANGE") and fields(ml[k]).get("ret") == "NULL":
+                why = "the call raised %s (errno was 0 on entry) and the model rejects the setting, yet a string not starting with '*' is returned/left in output" % f.get("errno")
+        if cur is not None: held[obj] = cur
+        if not failed and cur is not None:
+            last_success[obj] = cur
         if why: bad.append((op, why, line))
     return bad
 
@@ -90,7 +108,7 @@ def run(R):
         if not op.startswith("C "): return None if a == b else "setup op differs"
         return CS.proj_crypt(op, a, b)
     diffs = compare(R, ops, il, ml, proj, "fail-closed")
-    bad = oracle(ops, meta, il)
+    bad = oracle(ops, meta, il, ml)
     n = sum(1 for o in ops if o.startswith("C "))
     R.cov["evaluations"] = n
     R.cov["distinct_nontrivial"] = len({o for o, l in zip(ops, il) if o.startswith("C ") and (fields(l).get("ret") == "NULL" or fields(l).get("out", "").startswith("2a"))})
